@@ -276,7 +276,7 @@ func (v *vhVAA) MessageID() string {
 	return fmt.Sprintf("%d/%s/%d/%d", v.EChain, hex.EncodeToString(v.Emitter[:]), v.TChain, v.Seq)
 }
 
-// vhDecode is the reader the wire format implies: version 1, count byte n, n*66 bytes, 51 fixed body
+// vhDecode is the reader the wire format implies: version 1, count byte n, n*66 bytes, 53 fixed body
 // bytes, payload = the non-empty rest.  allowEmpty also accepts an empty payload (used to look at
 // stored bytes, never as an oracle for the decoder property).
 func vhDecode(b []byte, allowEmpty bool) (*vhVAA, error) {
@@ -289,7 +289,7 @@ func vhDecode(b []byte, allowEmpty bool) (*vhVAA, error) {
 	}
 	n := int(b[5])
 	off := 6
-	if len(b) < off+66*n+51 {
+	if len(b) < off+66*n+53 {
 		return nil, fmt.Errorf("short")
 	}
 	for i := 0; i < n; i++ {
